@@ -32,6 +32,33 @@ Ecrts19Def(sup, RhsBw(_), Rhs(_, _), lim) ==
        ELSE LET rs == [i \in 1..(bw + 1) |-> Lfp(LAMBDA r : Rhs(i - 1, r), S, i - 1, lim)]
             IN IF \E i \in 1..(bw + 1) : rs[i] = NONE THEN NONE ELSE MaxSeq(rs)
 
+\* the same with the offsets restricted to the steps of the demand dm (what a search space built from
+\* steps_iter examines): used only to CLASSIFY a disagreement with Ecrts19Def
+Ecrts19StepsOnly(sup, dm, RhsBw(_), Rhs(_, _), lim) ==
+    LET S(t) == Sbf(sup, t)
+        bw == Lfp(RhsBw, S, 0, lim)
+    IN IF bw = NONE THEN NONE
+       ELSE LET offs == {A \in 0..bw : SN(dm, A) < SN(dm, A + 1)}
+                rs == [A \in offs |-> Lfp(LAMBDA r : Rhs(A, r), S, A, lim)]
+            IN IF \E A \in offs : rs[A] = NONE THEN NONE ELSE SetMax({rs[A] : A \in offs})
+
+Ros2StepsOnly(op, inp) ==
+    CASE op = "ros2_es" ->
+            Ecrts19StepsOnly(inp.supply, inp.own, LAMBDA x : SN(inp.own, x), LAMBDA A, r : SN(inp.own, A + 1), inp.lim)
+      [] op = "ros2_timer" ->
+            Ecrts19StepsOnly(inp.supply, inp.own,
+               LAMBDA x : SN(inp.own, x) + inp.B + SN(inp.hp, x),
+               LAMBDA A, r : SN(inp.own, A + 1) + SN(inp.hp, Iv(inp.own, A, r)) + inp.B, inp.lim)
+      [] op = "ros2_pp" ->
+            Ecrts19StepsOnly(inp.supply, inp.own,
+               LAMBDA x : SN(inp.own, x) + SN(inp.others, x),
+               LAMBDA A, r : SN(inp.own, A + 1) + SN(inp.others, Iv(inp.own, A, r)), inp.lim)
+      [] op = "ros2_chain" ->
+            Ecrts19StepsOnly(inp.supply, inp.full,
+               LAMBDA x : SN(inp.full, x) + SN(inp.others, x),
+               LAMBDA A, r : SN(inp.last, A + 1) + SN(inp.prefix, Iv(inp.last, A, r)) + SN(inp.others, Iv(inp.last, A, r)),
+               inp.lim)
+
 EventSourceDef(inp) ==
     Ecrts19Def(inp.supply, LAMBDA x : SN(inp.own, x), LAMBDA A, r : SN(inp.own, A + 1), inp.lim)
 
